@@ -106,7 +106,7 @@ def sany_all():
     """Parse every specification module (setup)."""
     bad = []
     mods = []
-    for d in ("", "mc", "emit", "trace", "legacy", "proofs"):
+    for d in ("", "mc", "emit", "trace", "legacy"):  # spec/proofs needs tlapm's own TLAPS.tla (see ./check proofs)
         dd = os.path.join(SPEC, d)
         if not os.path.isdir(dd):
             continue
